@@ -164,6 +164,9 @@ def shards(tier, seed):
             out.append({"part": "docs", "tok": tok, "depth": depth, **sh})
         for r in range(8):
             out.append({"part": "docs", "tok": tok, "depth": 3 if tok != "REF" else 2, "ts": True, "r": r, "n": 8})
+        if tok != "REF":
+            for r in range(8):
+                out.append({"part": "docs", "tok": tok, "depth": 1, "big": True, "r": r, "n": 8})
     return out
 
 
@@ -179,6 +182,19 @@ def opt_shards(tier):
     out += [{"part": "docs", "tok": "AC", "depth": 3, "ts": True, "r": r, "n": 4} for r in range(4)]
     out += [{"part": "docs", "tok": "AC", "depth": 2, **sh} for sh in docspace.shards_for(A12, 2, 1)]
     return out
+
+
+BIG_FILLERS = [" x\r\n", "\r\n", " Id. at 5.\r\n", "\n", " hello", " 1 U.S. 1;\r\n", "\u00a0\n"]
+BIG_SIZES = [70000, 140000]  # beyond 64 KiB and beyond 100,000 / 128 KiB
+
+
+def big_documents():
+    """One fragment, then one filler repeated up to > 64 KiB and > 128 KiB, then the fragment again (CRLF line ends included)."""
+    for f in BIG_FILLERS:
+        for size in BIG_SIZES:
+            body = f * (size // len(f) + 1)
+            for a in ["", "1 U.S. 1", "Id. at 5", "Foo, supra", "§ 3", "See ", "394 U. S. 618"]:
+                yield a + body + a
 
 
 def _overlap_or_abut(cands):
@@ -224,7 +240,12 @@ def run_shard(sh):
     tok, depth = sh["tok"], sh["depth"]
     p = st.part("docs-" + tok)
     seen = set()
-    walker = ((None, t) for t in itertools.islice(docspace.ts_documents(depth), sh["r"], None, sh["n"])) if sh.get("ts") else docspace.walk(A12, depth, sh)
+    if sh.get("big"):
+        walker = ((None, t) for t in itertools.islice(big_documents(), sh["r"], None, sh["n"]))
+    elif sh.get("ts"):
+        walker = ((None, t) for t in itertools.islice(docspace.ts_documents(depth), sh["r"], None, sh["n"]))
+    else:
+        walker = docspace.walk(A12, depth, sh)
     for idx, text in walker:
         st.transitions += 1
         if text in seen:
